@@ -19,7 +19,7 @@ RULE = ("cases = every ordered sequence of 1..K distinct blocks (K=3 quick, 4 th
         "(regex, lookahead, alternation, leading parenthesis, char class, amount/date/month modifiers, tag-only row, invalid regex); each file is run on 72 "
         "transactions (8 descriptions x 3 amounts x 3 date/field/source contexts) through 2-3 public entry points. "
         "non-trivial = file in which, for some transaction, >=2 rules are true or a true tag-only rule precedes the winner; files are distinct by construction")
-ASSUMPTIONS = ["truth of one .rules condition is taken from the real evaluator on the one-rule file with the same preamble (C04 judges meaning)",
+ASSUMPTIONS = ["truth of one .rules condition is taken from the real evaluator on the one-rule file with the same preamble; for variable-free conditions it must also equal the reference interpreter's value where that is defined (C04 judges meaning in depth)",
                "truth of a legacy CSV row is computed independently: re.search(regex, description, re.I) and documented modifier meaning",
                "process-global caches are reset between files (C07 judges history dependence)"]
 
@@ -47,6 +47,8 @@ RULES = [
     {"name": "UsesM", "match": 'm == "77"', "category": "LeakCat"},
     # un-parenthesised and/or mix: only the `or` branch is true for AMAZON rows
     {"name": "AndOr", "match": 'contains("UBER") and contains("EATS") or contains("AMAZON")', "category": "Mixed", "subcategory": "AndOr"},
+    # substring alternatives holding regex metacharacters: literal text, true only for "NETFLIX.COM 123" and "SQ *NETFLIX"
+    {"name": "AnyOfLit", "match": 'anyof("AMAZON.MKTP", "UBER+", "NETFLIX.COM", "SQ *N")', "category": "Literal", "subcategory": "AnyOf"},
 ]
 # rules whose condition uses no variable / let binding: their truth is also evaluated directly with evaluate_transaction
 PLAIN = [i for i, r in enumerate(RULES) if not r.get("let") and r["name"] not in ("ByVar", "UsesM")]
@@ -72,6 +74,8 @@ CSVROWS = [
     {"pattern": "NETFLIX(", "merchant": "BadRegex", "category": "Bad", "subcategory": "Bad"},
     {"pattern": "[A-C]OSTCO", "merchant": "Costco Any", "category": "Shopping", "subcategory": "Club"},
     {"pattern": r"(AMAZON|AMZN)\s", "merchant": "Amazon Paren", "category": "Shopping", "subcategory": "Paren"},
+    # categorising row that leaves the subcategory blank; later rows of the SAME category that set one must not fill it in
+    {"pattern": "COSTCO|AMAZON", "merchant": "NoSub", "category": "Shopping", "subcategory": ""},
 ]
 
 TXNS = R.all_txns()
@@ -144,6 +148,24 @@ def direct_truth(i, stripped=False):
     return out
 
 
+@functools.lru_cache(maxsize=None)
+def reference_truth(i, stripped=False):
+    """truth of a variable-free condition according to the reference interpreter (mc/ref/expr.py, independent of tally);
+    None where the reference leaves the expression undefined (ill-typed / failing - then the rule is simply false, see C08)."""
+    import re
+    from mc.ref import expr as REF
+    out = []
+    for t in TXNS:
+        tt = dict(t, date=R.to_date(t["date"]), field=dict(t["field"]) if t["field"] is not None else None)
+        if stripped:
+            tt["description"] = re.sub(r"^SQ \*", "", tt["description"])
+        try:
+            out.append(bool(REF.evaluate(RULES[i]["match"], tt, None, None)))
+        except Exception:  # noqa
+            out.append(None)
+    return out
+
+
 def _expect(seq, truths, ti):
     for pos, i in enumerate(seq):
         r = RULES[i]
@@ -162,10 +184,15 @@ def check_rules_case(case):
         # (normalize_merchant: on the description as the transforms leave it)
         dt_e = direct_truth(seq[0])
         dt_ = direct_truth(seq[0], p in STRIPS_SQ)
+        rt_e = reference_truth(seq[0])
+        rt_ = reference_truth(seq[0], p in STRIPS_SQ)
         for ti, t in enumerate(TXNS):
             if tr[0][0][ti] != dt_e[ti] or tr[0][1][ti] != dt_[ti]:
                 viol.append({"kind": "engine-disagrees-with-evaluator", "detail": {"rule": RULES[seq[0]]["match"], "txn": t, "evaluator": dt_[ti],
                                                                                    "engine_match": tr[0][0][ti], "normalize": tr[0][1][ti]}})
+            elif (rt_e[ti] is not None and tr[0][0][ti] != rt_e[ti]) or (rt_[ti] is not None and tr[0][1][ti] != rt_[ti]):
+                viol.append({"kind": "condition-truth-differs-from-reference", "detail": {"rule": RULES[seq[0]]["match"], "txn": t, "reference": (rt_e[ti], rt_[ti]),
+                                                                                          "engine_match": tr[0][0][ti], "normalize": tr[0][1][ti]}})
     base_a, base_b = rules_results(p, ())
     outcomes = set()
     nontrivial = False
